@@ -75,6 +75,12 @@ pub enum G {
     /// kind 0 = peek_maybe then next_maybe; 1 = save / next / save / next / partial rewind;
     /// 2 = inp.parse(sub-parser) + inp.check(sub-parser); consumes >= 1 token when it succeeds
     CustomApi(u8, u8),
+    /// context-dependent parsing: a token t, then (with t as context) a configured parser:
+    /// (whether the configured parser is used by value or BY REFERENCE, `(&p).configure(..)`, is a
+    /// build mode, see build::set_cfg_by_ref), bit1 = ignore_with_ctx
+    /// instead of then_with_ctx, bit2 = `just(a).repeated().configure(exactly = sym(t) % 3)` instead
+    /// of `just(_).configure(seq = t)`
+    CtxPair(u8),
 }
 
 #[derive(Clone, Debug)]
@@ -157,6 +163,7 @@ impl<'r> Gen<'r> {
                     let n = self.rng.range(2, 3);
                     G::JustSeq((0..n).map(|_| self.sym()).collect())
                 }
+                5 if self.cfg.value_prims && self.rng.chance(1, 3) => G::CtxPair(self.rng.below(8) as u8),
                 5 if self.cfg.value_prims => G::Any,
                 6 if self.cfg.value_prims => G::OneOf(self.symset()),
                 7 if self.cfg.value_prims => G::NoneOf(self.symset()),
@@ -310,10 +317,22 @@ impl<'r> Gen<'r> {
                     let inner = self.bx(d + 2, false);
                     self.rec_depth -= 1;
                     let alt = Box::new(self.leaf(true));
-                    let body = if self.rng.chance(1, 2) {
-                        G::Or(Box::new(G::Delim(inner, open, close)), alt)
-                    } else {
-                        G::Or(alt, Box::new(G::Delim(inner, open, close)))
+                    let body = match self.rng.below(3) {
+                        0 => G::Or(Box::new(G::Delim(inner, open, close)), alt),
+                        1 => G::Or(alt, Box::new(G::Delim(inner, open, close))),
+                        _ => {
+                            // sequence-shaped body, no choice at the top:  open (leaf' | P | <sub>)* close
+                            // (a failure inside propagates straight through the recursion boundary; the
+                            // leaf usually validates, so non-fatal errors are emitted inside the recursion)
+                            let k = self.rng.below(16) as u8;
+                            let leaf = if self.rng.chance(2, 3) { G::Validate(alt, k) } else { *alt };
+                            let mut alts = vec![leaf, G::RecRef];
+                            if self.rng.chance(1, 2) {
+                                alts.push(*inner);
+                            }
+                            let item = G::Choice(alts);
+                            G::Delim(Box::new(G::Rep { item: Box::new(item), min: 0, max: None, mode: RepMode::Collect }), open, close)
+                        }
                     };
                     G::Rec(Box::new(body))
                 }
@@ -359,7 +378,7 @@ pub fn generate(rng: &mut Rng, cfg: &GenCfg) -> G {
 pub fn nullable(g: &G) -> bool {
     use G::*;
     match g {
-        Just(_) | Any | OneOf(_) | NoneOf(_) | Select(_) | Custom(..) | AnyRef | SelectRef(_) | CustomApi(..) => false,
+        Just(_) | Any | OneOf(_) | NoneOf(_) | Select(_) | Custom(..) | AnyRef | SelectRef(_) | CustomApi(..) | CtxPair(_) => false,
         JustSeq(v) => v.is_empty(),
         End | Empty | SpanFrom | SliceFrom => true,
         Then(a, b) | IgnoreThen(a, b) | ThenIgnore(a, b) => nullable(a) && nullable(b),
@@ -475,7 +494,7 @@ fn leftmost_recref(g: &G) -> bool {
     use G::*;
     match g {
         RecRef => true,
-        Just(_) | JustSeq(_) | Any | OneOf(_) | NoneOf(_) | Select(_) | Custom(..) | End | Empty | AnyRef | SelectRef(_) | SpanFrom | SliceFrom | CustomApi(..) => false,
+        Just(_) | JustSeq(_) | Any | OneOf(_) | NoneOf(_) | Select(_) | Custom(..) | End | Empty | AnyRef | SelectRef(_) | SpanFrom | SliceFrom | CustomApi(..) | CtxPair(_) => false,
         Then(a, b) | IgnoreThen(a, b) | ThenIgnore(a, b) => leftmost_recref(a) || (nullable(a) && leftmost_recref(b)),
         Delim(i, o, c) => leftmost_recref(o) || (nullable(o) && (leftmost_recref(i) || (nullable(i) && leftmost_recref(c)))),
         PaddedBy(a, p) => leftmost_recref(p) || (nullable(p) && leftmost_recref(a)) || (nullable(p) && nullable(a) && leftmost_recref(p)),
@@ -547,7 +566,7 @@ pub fn contains(g: &G, f: &dyn Fn(&G) -> bool) -> bool {
 /// Does the grammar need ValueInput (any/one_of/none_of/select!/nested_delimiters)?
 pub fn needs_value_input(g: &G) -> bool {
     contains(g, &|x| {
-        matches!(x, G::Any | G::OneOf(_) | G::NoneOf(_) | G::Select(_) | G::Not(_) | G::Lazy(_) | G::Slice(_) | G::AnyRef | G::SelectRef(_) | G::SpanFrom | G::SliceFrom) || matches!(x, G::Recover(_, Strat::Nested(..)))
+        matches!(x, G::Any | G::CtxPair(_) | G::OneOf(_) | G::NoneOf(_) | G::Select(_) | G::Not(_) | G::Lazy(_) | G::Slice(_) | G::AnyRef | G::SelectRef(_) | G::SpanFrom | G::SliceFrom) || matches!(x, G::Recover(_, Strat::Nested(..)))
     })
 }
 
@@ -634,6 +653,7 @@ pub fn sexpr(g: &G) -> String {
         SelectRef(v) => format!("sel_ref[{}]", syms(v)),
         SpanFrom => "span_from".into(),
         SliceFrom => "slice_from".into(),
+        CtxPair(f) => format!("ctx_pair#{}", f),
         CustomApi(k, a) => format!("custom_api#{}({})", k, c(*a)),
     }
 }
@@ -662,6 +682,17 @@ pub fn sample(g: &G, rng: &mut Rng, nsym: u8, out: &mut Vec<u8>, fuel: &mut i64,
         Just(s) => out.push(*s),
         JustSeq(v) => out.extend_from_slice(v),
         Any | AnyRef => out.push(rng.below(nsym as u64) as u8),
+        CtxPair(f) => {
+            let t = rng.below(nsym as u64) as u8;
+            out.push(t);
+            if f & 4 != 0 {
+                for _ in 0..(t % 3) {
+                    out.push(0);
+                }
+            } else {
+                out.push(t);
+            }
+        }
         OneOf(v) | Select(v) | SelectRef(v) => out.push(*rng.pick(v)),
         NoneOf(v) => out.push(other(v, rng)),
         Custom(a, _) => out.push(*a),
